@@ -55,12 +55,12 @@ impl<P: SingleObjectiveProblem> Component<P> for ExponentialAnnealingAcceptance 
         let mut populations = state.populations_mut();
 
         let o_current = populations
-            .peek(0)
+            .peek(1)
             .first()
             .wrap_err("current solution is missing")?
             .objective();
         let o_candidate = populations
-            .peek(1)
+            .peek(0)
             .first()
             .wrap_err("candidate solution is missing")?
             .objective();
